@@ -6,7 +6,8 @@ from .fn_engine import replay_fn, run_fn
 
 RUNNER = ("grid_run", "run_case")
 CLAUSE = {"grid-shape": "C14", "grid-axes": "C14", "grid-points": "C14", "grid-cells": "C14",
-          "grid-unstructured-cast": "C14", "grid-location-memo": "C14",
+          "grid-unstructured-cast": "C14", "grid-location-memo": "C14", "grid-raised": "C14",
+          "grid-conversion-raised": "C15",
           "canonical-order": "C15", "canon-roundtrip": "C15", "compatible-iff-same-locations": "C15",
           "transform-located": "C15", "transform-shape": "C15", "transform-mask": "C15"}
 
